@@ -708,6 +708,8 @@ static RunResult run_one(const RunSpec& spec)
     return reap(c);
 }
 
+static double now_s();
+
 // ---------------------------------------------------------------------------------------------
 // shrinking and replay files
 // ---------------------------------------------------------------------------------------------
@@ -807,7 +809,12 @@ static bool load_replay(const std::string& path, Replay& rp)
 static RunSpec shrink(const RunSpec& start, const VRec& want, int nsteps, int& reruns)
 {
     RunSpec best = start;
+    // minimisation is a service, not a verdict: it gets a wall-clock budget (a violation that takes the watchdog to show
+    // would otherwise cost minutes per candidate); the unminimised plan replays just as well
+    const double t_end = now_s() + 45.0;
     auto fails = [&](const RunSpec& s) {
+        if (now_s() > t_end)
+            return false;
         ++reruns;
         return same_violation(run_one(s), want, false);
     };
